@@ -337,6 +337,10 @@ def corpus():
         # 10.0.0.0/8 announced next to an MP_UNREACH_NLRI without prefixes: not an End-of-RIB marker (was dropped on the
         # BMP path during the dump phase before the fix of dumping.rs route_monitoring_preprocessing)
         "sm " + mk + "0023020000000a40010100800f03000201080a eorlike",
+        # duplicate MP_UNREACH_NLRI whose third instance does not parse (prefix length 200) (C04_duplicate_mp_unparsed_refuted)
+        "sm " + mk + "002c0200000015800f050002010820800f03000201800f04000201c8 dupmp",
+        # labelled-unicast NLRI (AFI 1 / SAFI 4) announcing 72 prefix bits: routecore panics (known finding, C06's business)
+        "wm " + mk + "00300200000019800e1600010404" "0a000001" "00" "6001f401" "0a0000000000000000 mplspanic",
         # the same next to an MP_UNREACH_NLRI of an AFI/SAFI unknown to routecore
         "sm " + mk + "0026020000000d40010100800f060019010a0b0c080a eorlike",
     ]
@@ -347,6 +351,11 @@ def known_signature(k, engine, case, model, spec, impl):
     RFC decoder, it behaves exactly like the decoder's Code mode, in the direction of that finding."""
     if engine not in ("c04", "c04bmp", "c04bgp") or k.get("engine") != "c04":
         return False
+    if k["signature"] == "labelled-nlri-panic":
+        # the whole case line is lost when the implementation panics; the decoder must have flagged a PDU that
+        # carries an opaque NLRI field of a family routecore parses (the only place where such a panic can come from)
+        return (impl.startswith("PANIC range end index") and "out of range for slice of length" in impl
+                and any(s.startswith("<ERR|") for s in segments(model)))
     ms, ss, is_ = segments(model), segments(spec), segments(impl)
     if not (len(ms) == len(ss) == len(is_)) or not ms:
         return False
